@@ -7,6 +7,7 @@ import BearVerif.Core.Wrap
   * `bindKws_spec`       loop invariant of the keyword phase of CPython's binding (`pyBind`): every keywordable
                          unfilled slot ends up holding `kwargs.get(name)`, everything else goes to `**`
   * `argChecks_eq` / `expected_eq`  both sides of the property split into the same five per-kind segments
+  * `default_slot_unchecked`  no check names a parameter whose default is used
 -/
 namespace BearVerif.Wrap
 
@@ -597,5 +598,119 @@ theorem runChecks_some (ok : Name → Val → Bool) (l : List (Name × Val)) (x 
       simp only [Bool.false_eq_true, ↓reduceIte, Option.some.injEq] at h
       subst h
       exact ⟨List.mem_cons_self .., by simpa using hy, [], r, rfl, rfl, by simp⟩
+
+/-! ### a parameter whose default is used is not checked -/
+
+theorem fill_p (kws : List (Name × Val)) (sl : Slot) : (fill kws sl).p = sl.p := by
+  unfold fill; split <;> rfl
+
+theorem bound_slot_names (s : Sig) (c : Call) (b : Binding) (hwf : s.WF) (h : pyBind s c = .ok b) :
+    b.slots.map (·.p.name) = (s.posonly ++ s.flex ++ s.kwonly).map Param.name := by
+  rw [(pyBind_ok s c b hwf h).1, List.map_map, ← slots0_names s c]
+  apply List.map_congr_left
+  intro sl _
+  simp [fill_p]
+
+theorem nodup_map_inj {α β} (f : α → β) (l : List α) (hnd : (l.map f).Nodup) (a b : α) (ha : a ∈ l) (hb : b ∈ l)
+    (hab : f a = f b) : a = b := by
+  induction l with
+  | nil => cases ha
+  | cons x r ih =>
+    simp only [List.map_cons, List.nodup_cons] at hnd
+    rcases List.mem_cons.mp ha with rfl | ha' <;> rcases List.mem_cons.mp hb with rfl | hb'
+    · rfl
+    · exact absurd (List.mem_map.mpr ⟨b, hb', hab.symm⟩) hnd.1
+    · exact absurd (List.mem_map.mpr ⟨a, ha', hab⟩) hnd.1
+    · exact ih hnd.2 ha' hb'
+
+theorem starPairs_name (p : Option Param) (vs : List Val) (n : Name) (v : Val) (h : (n, v) ∈ starPairs p vs) :
+    ∃ q, p = some q ∧ n = q.name := by
+  cases p with
+  | none => simp [starPairs] at h
+  | some q =>
+    refine ⟨q, rfl, ?_⟩
+    simp only [starPairs] at h
+    split at h
+    · obtain ⟨_, _, e⟩ := List.mem_map.mp h
+      exact (Prod.mk.inj e).1.symm
+    · cases h
+
+theorem nodup_append_not_mem {α} (a b : List α) (x : α) (h : (a ++ b).Nodup) (hx : x ∈ b) : x ∉ a := by
+  intro ha
+  exact (List.nodup_append.mp h).2.2 x ha x hx rfl
+
+theorem var_name_not_slot (s : Sig) (hwf : s.WF) (q : Param) (hq : s.varpos = some q ∨ s.varkw = some q) :
+    q.name ∉ (s.posonly ++ s.flex ++ s.kwonly).map Param.name := by
+  unfold Sig.WF Sig.params at hwf
+  intro hmem
+  simp only [List.map_append, List.mem_append] at hmem
+  simp only [List.map_append] at hwf
+  rcases hq with hq | hq
+  · -- names = PO ++ FL ++ [q] ++ KO ++ VK
+    rw [hq] at hwf
+    simp only [show optList (some q) = [q] from rfl, List.map_cons, List.map_nil] at hwf
+    rcases hmem with (h1 | h1) | h1
+    · have h' : ((s.posonly.map Param.name) ++ ((s.flex.map Param.name) ++ ([q.name] ++ ((s.kwonly.map Param.name) ++
+          (optList s.varkw).map Param.name)))).Nodup := by simpa [List.append_assoc] using hwf
+      exact nodup_append_not_mem _ _ q.name h' (by simp) h1
+    · have h' : ((s.posonly.map Param.name) ++ ((s.flex.map Param.name) ++ ([q.name] ++ ((s.kwonly.map Param.name) ++
+          (optList s.varkw).map Param.name)))).Nodup := by simpa [List.append_assoc] using hwf
+      have h'' := (List.nodup_append.mp h').2.1
+      exact nodup_append_not_mem _ _ q.name h'' (by simp) h1
+    · have h' : (((s.posonly.map Param.name) ++ (s.flex.map Param.name)) ++ ([q.name] ++ ((s.kwonly.map Param.name) ++
+          (optList s.varkw).map Param.name))).Nodup := by simpa [List.append_assoc] using hwf
+      have h'' := (List.nodup_append.mp h').2.1
+      have h3 : ([q.name] ++ (s.kwonly.map Param.name)).Nodup := by
+        have : (([q.name] ++ (s.kwonly.map Param.name)) ++ (optList s.varkw).map Param.name).Nodup := by
+          simpa [List.append_assoc] using h''
+        exact (List.nodup_append.mp this).1
+      exact (List.nodup_append.mp h3).2.2 q.name (by simp) q.name h1 rfl
+  · rw [hq] at hwf
+    simp only [show optList (some q) = [q] from rfl, List.map_cons, List.map_nil] at hwf
+    have hx : q.name ∈ [q.name] := by simp
+    rcases hmem with (h1 | h1) | h1
+    · have h' : ((s.posonly.map Param.name) ++ ((s.flex.map Param.name) ++ ((optList s.varpos).map Param.name ++
+          ((s.kwonly.map Param.name) ++ [q.name])))).Nodup := by simpa [List.append_assoc] using hwf
+      exact nodup_append_not_mem _ _ q.name h' (by simp) h1
+    · have h' : ((s.posonly.map Param.name) ++ ((s.flex.map Param.name) ++ ((optList s.varpos).map Param.name ++
+          ((s.kwonly.map Param.name) ++ [q.name])))).Nodup := by simpa [List.append_assoc] using hwf
+      have h'' := (List.nodup_append.mp h').2.1
+      exact nodup_append_not_mem _ _ q.name h'' (by simp) h1
+    · have h' : ((s.posonly.map Param.name ++ s.flex.map Param.name ++ (optList s.varpos).map Param.name) ++
+          ((s.kwonly.map Param.name) ++ [q.name])).Nodup := by simpa [List.append_assoc] using hwf
+      have h'' := (List.nodup_append.mp h').2.1
+      exact nodup_append_not_mem _ _ q.name h'' hx h1
+
+
+theorem slotPair_some (sl : Slot) (n : Name) (v : Val) (h : slotPair sl = some (n, v)) :
+    sl.p.name = n ∧ sl.val = some v := by
+  unfold slotPair at h
+  split at h
+  · split at h
+    · simp only [Option.some.injEq, Prod.mk.injEq] at h
+      exact ⟨h.1, by simp_all⟩
+    · cases h
+  · cases h
+
+theorem default_slot_unchecked (s : Sig) (c : Call) (b : Binding) (hwf : s.WF) (h : pyBind s c = .ok b)
+    (sl : Slot) (hsl : sl ∈ b.slots) (hv : sl.val = none) (v : Val) : (sl.p.name, v) ∉ argChecks s c := by
+  intro hmem
+  have hexp := (checks_perm_expected s c b hwf h).mem_iff.mp hmem
+  have hnames := bound_slot_names s c b hwf h
+  have hslot : sl.p.name ∈ (s.posonly ++ s.flex ++ s.kwonly).map Param.name := by
+    rw [← hnames]; exact List.mem_map.mpr ⟨sl, hsl, rfl⟩
+  simp only [Binding.expected, List.mem_append] at hexp
+  rcases hexp with (h1 | h2) | h3
+  · obtain ⟨sl', hsl', hp⟩ := List.mem_filterMap.mp h1
+    obtain ⟨e1, e2⟩ := slotPair_some sl' _ _ hp
+    have hnd : (b.slots.map (·.p.name)).Nodup := by
+      rw [hnames]; exact List.Nodup.sublist ((params_sublist s).map _) hwf
+    have : sl' = sl := nodup_map_inj (·.p.name) b.slots hnd sl' sl hsl' hsl e1
+    rw [this, hv] at e2
+    cases e2
+  · obtain ⟨q, hq, hn⟩ := starPairs_name _ _ _ _ h2
+    exact var_name_not_slot s hwf q (Or.inl hq) (hn ▸ hslot)
+  · obtain ⟨q, hq, hn⟩ := starPairs_name _ _ _ _ h3
+    exact var_name_not_slot s hwf q (Or.inr hq) (hn ▸ hslot)
 
 end BearVerif.Wrap
